@@ -240,17 +240,5 @@ package core
 //@   callsite DeleteAggregatedBloomFilter@*: through_the_writer: $0 == writer
 //@   ensures at_most_one_window: calls_DeleteAggregatedBloomFilter == old(calls_DeleteAggregatedBloomFilter) || calls_DeleteAggregatedBloomFilter == old(calls_DeleteAggregatedBloomFilter) + 1
 //@   ensures nothing_written: calls_WriteAggregatedBloomFilter == old(calls_WriteAggregatedBloomFilter)
-//@ func (*RunningEventFilter).InsertWithBatch
-//@   props C05
-//@   arith int
-//@   requires f != nil
-//@   modifies *
-//@   assigns calls_WriteAggregatedBloomFilter, arg_WriteAggregatedBloomFilter_w, arg_WriteAggregatedBloomFilter_filter
-//@   callsite insert@*: with_the_batch: $1 == batch && $2 == bloom && $3 == blockNumber
-//@ func (*RunningEventFilter).OnReorgWithBatch
-//@   props C05, C04
-//@   arith int
-//@   requires f != nil
-//@   modifies *
-//@   assigns calls_DeleteAggregatedBloomFilter, arg_DeleteAggregatedBloomFilter_w, arg_DeleteAggregatedBloomFilter_fromBlock, arg_DeleteAggregatedBloomFilter_toBlock
-//@   callsite onReorg@*: with_the_batch: $1 == batch
+// InsertWithBatch / OnReorgWithBatch only forward their batch to insert / onReorg; they carry no
+// contract here because the state back-ends' contracts log calls of them under their own names.
